@@ -15,7 +15,8 @@ ANCHORS = ['paper_wallet:PaperWallet.generate', 'paper_wallet:PaperWallet.json',
 RULE = ("wallets from random secrets through all constructors x both networks x accounts {0,1,2^31-2,2^31-1,random} x "
         "intervals {(0,0),(0,1),(7,8),(s,s+r),(2^31-3,2^31-1),(2^31-1,2^31)} inside [0,2^31), 0..40 rows; everything recomputed "
         "from the seed by the reference model; distinct = distinct (monitor, case) digests; a wallet is non-trivial when it "
-        "has >=1 row or a non-zero account")
+        "has >=1 row or a non-zero account"
+        " EXTENSIONS: + listings of 255..1025 and 4097 rows (thorough 16385) with real keys, one listing of 2^15+600 rows in fast mode (thorough 2^17+600), results re-read after later requests and after the caller edited them, export_wallet / export_wasabi onto one path repeatedly, accounts equal to meaningful numbers")
 LEVEL_TEXT = ("The dict returned by PaperWallet.generate(account, interval), the json() string and wasabi_json() of real "
               "wallets are checked by an offline checker against the reference model recomputed from the seed: account paths "
               "and SLIP-132 keys per purpose, one row per index in order, WIF/SEC/address of each row independently decoded, "
@@ -330,6 +331,46 @@ def judge_long_listing(ctx, case):
                      mech="C06.long_listing." + (bad[0][0] if bad else ""))
 
 
+def huge_listing_rows(case):
+    """One listing of case['n'] rows (2^15+ .. 2^17+) made in fast mode (inject.FastEC: constant PRF, memoised ecdsa - every
+    row carries the same key, but path, position, count, network tags and row shape are the real code's).  Returns
+    (wallet, testnet, keys, rows)."""
+    from .. import inject
+    import btc_hd_wallet.bip32 as b32
+    w, m, mn, pw, tn = build_wallet(case)
+    with inject.FastEC([b32]):
+        keys, rows = getattr(w, "bip%d" % case["purpose_listed"])(account=case["account"], interval=(case["start"], case["start"] + case["n"]))
+        rows = [list(r) for r in rows]
+    return w, tn, keys, rows
+
+
+def judge_huge_listing(ctx, case):
+    try:
+        w, tn, keys, rows = huge_listing_rows(case)
+    except Exception as ex:  # noqa
+        return ctx.judge("long_listing", False, case, "%d rows" % case["n"], ex, cls="huge|raised", mech="C06.long_listing.raised")
+    purpose, acct, s, n = case["purpose_listed"], case["account"], case["start"], case["n"]
+    want_path = "m/%d'/%d'/%d'" % (purpose, 1 if tn else 0, acct)
+    bad = []
+    if len(rows) != n:
+        bad.append(("row_count", n, len(rows)))
+    for j, row in enumerate(rows[:n]):
+        if len(row) != 4 or row[0] != "%s/0/%d" % (want_path, s + j):
+            bad.append(("row_path", "%s/0/%d" % (want_path, s + j), row[0] if row else row))
+            break
+        if j % 257 == 0 or j > n - 3:
+            try:
+                if row[1] != raddr.KINDS[rpaper.ADDR_KIND[purpose]](bytes.fromhex(row[2]), tn):
+                    bad.append(("row_address_vs_sec", j, row[1]))
+                    break
+            except Exception as ex:  # noqa
+                bad.append(("row_malformed", j, ex))
+                break
+    ctx.extra["rows_checked"] = ctx.extra.get("rows_checked", 0) + len(rows)
+    return ctx.judge("long_listing", not bad, case, None, bad[:3], cls="huge|n%d|bip%d|%s|fast" % (n, purpose, "test" if tn else "main"),
+                     mech="C06.long_listing." + (bad[0][0] if bad else ""))
+
+
 def gen_sequence(rnd, j):
     case = gen_case(rnd, j)
     base = rnd.choice([0, 0, 3, 1000, H - 12])
@@ -421,6 +462,14 @@ def run(ctx):
         case["account"] = rnd.choice([0, 0, 3, H - 1])
         case.pop("end", None)
         judge_long_listing(ctx, case)
+    # one listing far beyond every batch size one would pick (2^15 + 600 rows; thorough: 2^16 + 600 and 2^17 + 600), fast mode
+    huge = [(1 << 15) + 600] if not ctx.thorough else [(1 << 15) + 600, (1 << 16) + 600, (1 << 17) + 600]
+    for hi, z in enumerate(huge):
+        if ctx.mine_once(hi + 5):
+            case = gen_case(rnd, 2 + hi)          # (a seed-based route)
+            case.update({"purpose_listed": (84, 49, 44)[(hi + ctx.seed) % 3], "n": z, "start": rnd.choice([0, 7]), "account": rnd.choice([0, 3])})
+            case.pop("end", None)
+            judge_huge_listing(ctx, case)
 
 
 def replay(ctx, monitor, case):
@@ -428,7 +477,7 @@ def replay(ctx, monitor, case):
         case["exports"] = [tuple(x) for x in case["exports"]]
         return judge_export_files(ctx, case)
     if monitor == "long_listing":
-        return judge_long_listing(ctx, case)
+        return judge_huge_listing(ctx, case) if case.get("n", 0) > 20000 else judge_long_listing(ctx, case)
     if monitor == "sequence":
         case.pop("step", None)
         case.pop("reread", None)
